@@ -7,6 +7,7 @@
     particular the walk of [check_subword_spaces], which follows nonterminal references itself
     (unbounded recursion in the real code), is guarded by the success of the cycle search. *)
 From CG Require Import Base.Prelude Model.Ast Model.Check.
+From CG Require Import Proofs.TreeFacts Proofs.CheckTree.
 From CG Require Import Proofs.CheckLemmas Proofs.CheckCycle Proofs.CheckTotal.
 From CGgen Require Import Consts.
 
@@ -63,6 +64,21 @@ Check C06_subword_walk_total :
     spaces table (spaces_fuel table e) e [] false false = Ok tt \/
     exists err, spaces table (spaces_fuel table e) e [] false false = Err err.
 Print Assumptions C06_subword_walk_total.
+
+(** The shape the later stages need (hypothesis of [C02_total] / [C03_wf_from_regex]): when no
+    [|] and no [||] of the source grammar is empty, none is empty in the validated expression --
+    every pass only rebuilds nodes with [map], and the root alternative over the call variants
+    has at least two operands.  ([alts_nonempty], [grammar_alts_nonempty]: Proofs/TreeFacts.v.) *)
+Theorem C06_from_grammar_alts_nonempty :
+  forall builtins g sh v,
+    grammar_alts_nonempty g = true -> from_grammar builtins g sh = Ok v ->
+    alts_nonempty (v_expr v) = true.
+Proof. intros builtins g sh v Hg Hv. apply (check_tree builtins g sh v Hv). exact Hg. Qed.
+Check C06_from_grammar_alts_nonempty :
+  forall builtins g sh v,
+    grammar_alts_nonempty g = true -> from_grammar builtins g sh = Ok v ->
+    alts_nonempty (v_expr v) = true.
+Print Assumptions C06_from_grammar_alts_nonempty.
 
 (** Non-vacuity: a chain of definitions as deep as there are definitions is accepted; a cycle
     that no root reaches is an error; a [DistributiveDescription] reaching the walk would be a
